@@ -3,8 +3,8 @@
    Scope, as the property words it: blocks created by SEPARATE constructor or decode calls; a caller
    who hands the same list object to two constructors, or puts the same track object into two
    blocks, has created the sharing himself (op_ok / the hypothesis of C20_frame on HEdit). *)
-From Model Require Import Base Heap.
-From Proofs Require Import HeapFacts.
+From Model Require Import Base Heap Buffers.
+From Proofs Require Import HeapFacts BufferFacts.
 Open Scope Z_scope.
 
 Fixpoint ops_ok (s : hstate) (os : list hop) : Prop :=
@@ -63,3 +63,66 @@ Example C20_example :
   content (h_run h_init os) 3 = Some [(4, Some 1); (5, Some 0)] /\
   content (h_run h_init os) 4 = Some [].
 Proof. cbn zeta. split; [cbn; repeat split|vm_compute; repeat split; reflexivity]. Qed.
+
+
+(* ---------- the numbers of an item (Buffers.v): "event values copied into a fresh array" ----------
+   Items built by separate constructor calls from ONE caller-side source: when the constructor has to convert the
+   source (a list, a tuple, an array of another dtype, array.array, a memoryview, an __array__ provider) each item gets a
+   buffer that no other item and no source uses — in every reachable state —, so editing one item's values in place
+   changes neither the other items nor the caller's source. *)
+Lemma item_from_converted s src b0 : bs_src s src = Some (SConvert, b0) ->
+  bs_next (b_step s (BItem src)) = bs_next s + 2 /\
+  bs_item (b_step s (BItem src)) = fupd (bs_next s) (bs_next s + 1) (bs_item s) /\
+  bs_src (b_step s (BItem src)) = bs_src s.
+Proof. intros Es. cbn [b_step]. rewrite Es. repeat split. Qed.
+
+Theorem C20_converted_items_own_their_buffer : forall os src b0,
+  let s := b_run bs_init os in
+  bs_src s src = Some (SConvert, b0) ->
+  let s1 := b_step s (BItem src) in let it1 := bs_next s in
+  let s2 := b_step s1 (BItem src) in let it2 := bs_next s1 in
+  let s3 := b_step s2 (BEditItem it1) in
+  item_ver s3 it2 = item_ver s2 it2 /\ src_ver s3 src = src_ver s2 src /\
+  (forall it b, it <> it1 -> bs_item s2 it = Some b -> item_ver s3 it = item_ver s2 it).
+Proof.
+  intros os src b0 s Es s1 it1 s2 it2 s3.
+  assert (Hb : bbound s) by (apply b_run_bound, bbound_init).
+  destruct (item_from_converted s src b0 Es) as [N1 [I1 S1]]. fold s1 in N1, I1, S1.
+  assert (Es1 : bs_src s1 src = Some (SConvert, b0)) by (rewrite S1; exact Es).
+  destruct (item_from_converted s1 src b0 Es1) as [N2 [I2 S2]]. fold s2 in N2, I2, S2. fold it2 in I2.
+  assert (Hb1 : bbound s1) by now apply b_step_bound.
+  assert (Ei1 : bs_item s2 it1 = Some (it1 + 1)).
+  { rewrite I2, fupd_other by (unfold it2, it1; lia). rewrite I1. apply fupd_same. }
+  assert (Ei2 : bs_item s2 it2 = Some (it2 + 1)) by (rewrite I2; apply fupd_same).
+  assert (Es2 : bs_src s2 src = Some (SConvert, b0)) by (rewrite S2; exact Es1).
+  assert (Hne : it1 + 1 <> it2 + 1) by (unfold it2, it1; lia).
+  destruct Hb as [H1 H2]. destruct Hb1 as [H11 H12].
+  repeat split.
+  - apply (edit_item_frame s2 it1 it2 (it1 + 1) (it2 + 1)); assumption.
+  - apply (edit_item_frame_src s2 it1 src SConvert (it1 + 1) b0); try assumption.
+    apply H2 in Es. unfold it1. lia.
+  - intros it b Hit Eb. apply (edit_item_frame s2 it1 it (it1 + 1) b); try assumption.
+    intros Heq. subst b. rewrite I2 in Eb. destruct (Z.eq_dec it it2) as [->|Nq].
+    + rewrite fupd_same in Eb. inversion Eb. unfold it2, it1 in *. lia.
+    + rewrite fupd_other in Eb by exact Nq. rewrite I1 in Eb. rewrite fupd_other in Eb by exact Hit.
+      apply H1 in Eb. unfold it1 in Eb. lia.
+Qed.
+Print Assumptions C20_converted_items_own_their_buffer.
+
+(* ... whereas an array the constructor keeps IS the item's buffer: two items built from it are one buffer — the caller
+   placed one object in two items (the exception the property makes) *)
+Theorem C20_kept_source_is_shared : forall s src b0, bs_src s src = Some (SKeep, b0) ->
+  let s1 := b_step s (BItem src) in let s2 := b_step s1 (BItem src) in
+  bs_item s2 (bs_next s) = Some b0 /\ bs_item s2 (bs_next s1) = Some b0.
+Proof.
+  intros s src b0 Es s1 s2. unfold s2, s1. cbn [b_step]. rewrite Es. cbn [bs_src bs_item bs_next]. rewrite Es. cbn [bs_item bs_next].
+  split; [rewrite fupd_other by lia; apply fupd_same|apply fupd_same].
+Qed.
+Print Assumptions C20_kept_source_is_shared.
+
+Example C20_buffers_example :
+  let os := [BSource SConvert; BItem 0; BItem 0; BEditItem 2; BSource SKeep; BItem 6; BItem 6; BEditItem 8] in
+  let s := b_run bs_init os in
+  (item_ver s 2, item_ver s 4, src_ver s 0) = (Some 1, Some 0, Some 0) /\
+  (item_ver s 8, item_ver s 9, src_ver s 6) = (Some 1, Some 1, Some 1).
+Proof. vm_compute. split; reflexivity. Qed.
